@@ -287,6 +287,8 @@ class DSDLDefinition(ReadableDSDLFile):
         except Error as ex:  # pragma: no cover
             ex.set_error_location_if_unknown(path=self.file_path)
             raise ex
+        except UnicodeDecodeError as ex:
+            raise InvalidDefinitionError("The definition is not a valid text file: %s" % ex, path=self.file_path) from None
         except (MemoryError, SystemError):  # pragma: no cover
             raise
         except Exception as ex:  # pragma: no cover
